@@ -1,1 +1,597 @@
-(* C20 proofs: in progress *)
+(* Proofs for Props/C20.v: the SQL WHERE printer keeps the boolean structure of the criteria and quotes literals safely. *)
+From Coq Require Import List String Ascii Bool Arith NArith ZArith Lia.
+From Yae Require Import Base.Sexp Model.Ty Model.Num Model.Lexer Model.Literal Model.Val Model.Render Model.Eval
+  Model.Sql Model.SqlSpec.
+Import ListNotations.
+Local Open Scope nat_scope.
+Local Open Scope list_scope.
+
+Local Arguments is_print : simpl never.
+Local Opaque is_print.
+
+(* ------------------------------------------------------------------------------------------------ *)
+(* Operands, names                                                                                   *)
+(* ------------------------------------------------------------------------------------------------ *)
+
+Lemma string_operand : forall ops rho s, operand_text ops rho (PStr s) = Some (quote s).
+Proof. reflexivity. Qed.
+
+Lemma scalars : forall ops rho b sec n,
+  operand_text ops rho (PBool b) = Some (if b then bytes_of_string "1" else bytes_of_string "0") /\
+  operand_text ops rho (PTime sec) = Some (bytes_of_string "from_unixtime(" ++ fmt_Z sec ++ bytes_of_string ")") /\
+  operand_text ops rho (PNum n) = Some (fmt_num ops n).
+Proof. intros. repeat split. Qed.
+
+Lemma names : forall ops rho n,
+  (forall v, assoc n rho = Some v -> name_text ops rho n = fmt_val ops v) /\
+  (assoc n rho = None -> name_text ops rho n = Some ([96%N] ++ bytes_of_string n ++ [96%N])).
+Proof.
+  intros ops rho n. unfold name_text. split.
+  - intros v H. rewrite H. reflexivity.
+  - intros H. rewrite H. reflexivity.
+Qed.
+
+(* ------------------------------------------------------------------------------------------------ *)
+(* text_is_tokens                                                                                    *)
+(* ------------------------------------------------------------------------------------------------ *)
+
+Section Tokens.
+  Variable ops : numops.
+  Variable rho : venv.
+
+  Let rt := render_toks ops rho.
+
+  Lemma render_cons t u r :
+    render_toks ops rho (t :: u :: r) =
+    do a <- tok_text ops rho t; do b <- render_toks ops rho (u :: r);
+    Some (if is_lp t || is_rp u then a ++ b else a ++ [32%N] ++ b).
+  Proof. reflexivity. Qed.
+
+  Lemma render_one t : render_toks ops rho [t] = tok_text ops rho t.
+  Proof. reflexivity. Qed.
+
+  Lemma last_app_ne {X} (xs ys : list X) d : ys <> [] -> last (xs ++ ys) d = last ys d.
+  Proof.
+    intros H. induction xs as [|x xs IH]; [reflexivity|].
+    cbn [app]. destruct (xs ++ ys) eqn:E.
+    - destruct xs; [cbn in E; congruence | discriminate].
+    - cbn [last]. exact IH.
+  Qed.
+
+  Lemma render_app xs : forall ys, xs <> [] -> ys <> [] ->
+    render_toks ops rho (xs ++ ys) =
+    do a <- render_toks ops rho xs; do b <- render_toks ops rho ys;
+    Some (if is_lp (last xs TAnd) || is_rp (hd TAnd ys) then a ++ b else a ++ [32%N] ++ b).
+  Proof.
+    induction xs as [|t xs IH]; intros ys Hx Hy; [congruence|].
+    destruct xs as [|t' xs].
+    - destruct ys as [|u ys]; [congruence|].
+      cbn [app]. rewrite render_cons, render_one. reflexivity.
+    - change ((t :: t' :: xs) ++ ys) with (t :: t' :: (xs ++ ys)).
+      rewrite render_cons.
+      change (t' :: xs ++ ys) with ((t' :: xs) ++ ys).
+      rewrite IH by (congruence || assumption).
+      rewrite render_cons.
+      change (last (t :: t' :: xs) TAnd) with (last (t' :: xs) TAnd).
+      destruct (tok_text ops rho t) as [a|]; [|reflexivity]. cbn [bind].
+      destruct (render_toks ops rho (t' :: xs)) as [b|]; [|reflexivity]. cbn [bind].
+      destruct (render_toks ops rho ys) as [c|]; [|reflexivity]. cbn [bind].
+      f_equal.
+      destruct (is_lp t || is_rp t'), (is_lp (last (t' :: xs) TAnd) || is_rp (hd TAnd ys));
+        rewrite <- ?app_assoc; cbn [app]; rewrite <- ?app_assoc; reflexivity.
+  Qed.
+
+  (* token lists printed for a criteria tree: non-empty, do not start with ")" and do not end with "(" *)
+  Definition good (ts : list stok) : Prop :=
+    ts <> [] /\ is_rp (hd TAnd ts) = false /\ is_lp (last ts TAnd) = false.
+
+  Lemma good_paren t : good ([TLp] ++ t ++ [TRp]).
+  Proof.
+    split; [discriminate|]. split; [reflexivity|].
+    rewrite app_assoc. rewrite last_app_ne by discriminate. reflexivity.
+  Qed.
+
+  Lemma good_bin xs m ys : good xs -> good ys -> good (xs ++ [m] ++ ys).
+  Proof.
+    intros (Hx & Hxh & _) (Hy & _ & Hyl). split; [|split].
+    - destruct xs; [congruence|discriminate].
+    - destruct xs; [congruence|exact Hxh].
+    - rewrite app_assoc. rewrite last_app_ne by exact Hy. exact Hyl.
+  Qed.
+
+  Lemma good_not ys : good ys -> good ([TNot] ++ ys).
+  Proof.
+    intros (Hy & _ & Hyl). split; [discriminate|]. split; [reflexivity|].
+    rewrite last_app_ne by exact Hy. exact Hyl.
+  Qed.
+
+  Lemma good_toks c : forall outer, good (sql_toks c outer).
+  Proof.
+    induction c as [k|a IHa b IHb|a IHa b IHb|a IHa]; intros outer; cbn [sql_toks].
+    - split; [discriminate|]. split; reflexivity.
+    - destruct (N.ltb P_AND outer); [apply good_paren|apply good_bin; auto].
+    - destruct (N.ltb P_OR outer); [apply good_paren|apply good_bin; auto].
+    - destruct (N.ltb P_NOT outer); [apply good_paren|apply good_not; auto].
+  Qed.
+
+  Lemma render_paren t : t <> [] ->
+    render_toks ops rho ([TLp] ++ t ++ [TRp]) = do x <- render_toks ops rho t; Some ([40%N] ++ x ++ [41%N]).
+  Proof.
+    intros Ht.
+    rewrite render_app; [|discriminate|intros E; apply app_eq_nil in E; destruct E; discriminate].
+    rewrite render_app; [|assumption|discriminate].
+    cbn [last hd is_lp is_rp orb]. rewrite !render_one. cbn [tok_text bind].
+    rewrite orb_true_r.
+    destruct (render_toks ops rho t) as [x|]; reflexivity.
+  Qed.
+
+  Lemma render_bin xs m ys w : good xs -> good ys -> tok_text ops rho m = Some w ->
+    is_lp m = false -> is_rp m = false ->
+    render_toks ops rho (xs ++ [m] ++ ys) =
+    do x <- render_toks ops rho xs; do y <- render_toks ops rho ys; Some (x ++ ([32%N] ++ w ++ [32%N]) ++ y).
+  Proof.
+    intros (Hx & _ & Hxl) (Hy & Hyh & _) Hm Hml Hmr.
+    rewrite render_app by (try assumption; discriminate).
+    rewrite render_app by (try assumption; discriminate).
+    cbn [last hd app]. rewrite Hxl, Hyh, Hml, Hmr, render_one, Hm. cbn [orb bind].
+    destruct (render_toks ops rho xs) as [x|]; [|reflexivity]. cbn [bind].
+    destruct (render_toks ops rho ys) as [y|]; [|reflexivity]. cbn [bind].
+    rewrite <- !app_assoc. reflexivity.
+  Qed.
+
+  Lemma render_not ys : good ys ->
+    render_toks ops rho ([TNot] ++ ys) = do y <- render_toks ops rho ys; Some (bytes_of_string "NOT " ++ y).
+  Proof.
+    intros (Hy & Hyh & _).
+    rewrite render_app by (try assumption; discriminate).
+    cbn [last hd is_lp]. rewrite Hyh, render_one. cbn [tok_text orb bind].
+    destruct (render_toks ops rho ys) as [y|]; reflexivity.
+  Qed.
+
+  Lemma text_is_tokens_sec : forall c outer,
+    sql_text ops rho c outer = render_toks ops rho (sql_toks c outer).
+  Proof.
+    induction c as [k|a IHa b IHb|a IHa b IHb|a IHa]; intros outer; cbn [sql_text sql_toks].
+    - reflexivity.
+    - rewrite IHa, IHb.
+      assert (Hb : render_toks ops rho (sql_toks a P_AND ++ [TAnd] ++ sql_toks b P_AND) =
+                   do x <- render_toks ops rho (sql_toks a P_AND); do y <- render_toks ops rho (sql_toks b P_AND);
+                   Some (x ++ bytes_of_string " AND " ++ y)).
+      { rewrite (render_bin _ _ _ (bytes_of_string "AND")); try reflexivity; apply good_toks. }
+      destruct (N.ltb P_AND outer).
+      + rewrite render_paren by (destruct (good_toks a P_AND) as (H & _); destruct (sql_toks a P_AND); [congruence|discriminate]).
+        rewrite Hb.
+        destruct (render_toks ops rho (sql_toks a P_AND)); [|reflexivity]. cbn [bind].
+        destruct (render_toks ops rho (sql_toks b P_AND)); reflexivity.
+      + exact (eq_sym Hb).
+    - rewrite IHa, IHb.
+      assert (Hb : render_toks ops rho (sql_toks a P_OR ++ [TOr] ++ sql_toks b P_OR) =
+                   do x <- render_toks ops rho (sql_toks a P_OR); do y <- render_toks ops rho (sql_toks b P_OR);
+                   Some (x ++ bytes_of_string " OR " ++ y)).
+      { rewrite (render_bin _ _ _ (bytes_of_string "OR")); try reflexivity; apply good_toks. }
+      destruct (N.ltb P_OR outer).
+      + rewrite render_paren by (destruct (good_toks a P_OR) as (H & _); destruct (sql_toks a P_OR); [congruence|discriminate]).
+        rewrite Hb.
+        destruct (render_toks ops rho (sql_toks a P_OR)); [|reflexivity]. cbn [bind].
+        destruct (render_toks ops rho (sql_toks b P_OR)); reflexivity.
+      + exact (eq_sym Hb).
+    - rewrite IHa.
+      pose proof (render_not _ (good_toks a P_NOT)) as Hb.
+      destruct (N.ltb P_NOT outer).
+      + rewrite render_paren by discriminate.
+        rewrite Hb.
+        destruct (render_toks ops rho (sql_toks a P_NOT)); reflexivity.
+      + exact (eq_sym Hb).
+  Qed.
+End Tokens.
+
+Lemma text_is_tokens : forall ops rho c outer,
+  sql_text ops rho c outer = render_toks ops rho (sql_toks c outer).
+Proof. exact text_is_tokens_sec. Qed.
+
+(* ------------------------------------------------------------------------------------------------ *)
+(* quote_safe                                                                                        *)
+(* ------------------------------------------------------------------------------------------------ *)
+
+Section QuoteSafe.
+  Local Open Scope N_scope.
+  Local Ltac Zify.zify_post_hook ::= Z.to_euclidean_division_equations.
+
+  Ltac nb :=
+    repeat match goal with
+           | |- context [N.ltb ?a ?b] => destruct (N.ltb_spec a b)
+           | |- context [N.leb ?a ?b] => destruct (N.leb_spec a b)
+           | |- context [N.eqb ?a ?b] => destruct (N.eqb_spec a b)
+           end.
+
+  Definition plainb (b : N) : Prop := b <> 34 /\ b <> 92.
+  (* an encoding the literal scanner steps over completely, whatever follows *)
+  Definition skips (enc : list N) : Prop :=
+    forall tail pos, lit_end (enc ++ tail) pos = lit_end tail (List.length enc + pos)%nat.
+
+  Lemma skips_plain enc : Forall plainb enc -> skips enc.
+  Proof.
+    induction 1 as [|b enc (H1 & H2) _ IH]; intros tail pos; [reflexivity|].
+    cbn [app lit_end List.length].
+    destruct (N.eqb_spec b 92); [congruence|]. destruct (N.eqb_spec b 34); [congruence|].
+    rewrite IH. f_equal. lia.
+  Qed.
+
+  Lemma skips_esc x enc : Forall plainb enc -> skips (92 :: x :: enc).
+  Proof.
+    intros H tail pos. cbn [app lit_end List.length]. cbn [N.eqb Pos.eqb].
+    rewrite (skips_plain _ H). f_equal. lia.
+  Qed.
+
+  Lemma plain_hexd n : plainb (hexd n).
+  Proof. unfold plainb, hexd. nb; lia. Qed.
+
+  Lemma plain_hex2 n : Forall plainb (hex2 n).
+  Proof. unfold hex2. repeat constructor; apply plain_hexd. Qed.
+
+  Lemma plain_hex4 n : Forall plainb (hex4 n).
+  Proof. unfold hex4. apply Forall_app. split; apply plain_hex2. Qed.
+
+  Lemma plain_hex8 n : Forall plainb (hex8 n).
+  Proof. unfold hex8. apply Forall_app. split; apply plain_hex4. Qed.
+
+  Lemma plain_utf8 r : r <> 34 -> r <> 92 -> Forall plainb (utf8_encode r).
+  Proof.
+    intros H1 H2. unfold utf8_encode. cbv zeta.
+    destruct ((N.leb 55296 r && N.leb r 57343) || N.ltb 1114111 r).
+    - cbn. repeat constructor; cbv [plainb]; lia.
+    - nb; repeat constructor; cbv [plainb]; lia.
+  Qed.
+
+  Lemma skips_escape_rune r : skips (escape_rune r).
+  Proof.
+    unfold escape_rune.
+    destruct (N.eqb_spec r 34) as [->|H34]; [apply skips_esc; constructor|].
+    destruct (N.eqb_spec r 92) as [->|H92]; [apply skips_esc; constructor|].
+    cbn [orb].
+    destruct (is_print r); [apply skips_plain, plain_utf8; assumption|].
+    repeat match goal with
+           | |- skips (if ?c then _ else _) => destruct c
+           end;
+      try (apply skips_esc; apply Forall_nil).
+    - apply (skips_esc 120), plain_hex2.
+    - apply (skips_esc 117), plain_hex4.
+    - apply (skips_esc 85), plain_hex8.
+  Qed.
+
+  Definition stepq (x : N * nat * N) : list N :=
+    let '(r, w, b0) := x in if Nat.eqb w 1 && N.eqb r 65533 then [92; 120] ++ hex2 b0 else escape_rune r.
+
+  Lemma skips_stepq x : skips (stepq x).
+  Proof.
+    destruct x as [[r w] b0]. unfold stepq.
+    destruct (Nat.eqb w 1 && N.eqb r 65533).
+    - apply (skips_esc 120), plain_hex2.
+    - apply skips_escape_rune.
+  Qed.
+
+  Lemma skips_flat_map l : skips (flat_map stepq l).
+  Proof.
+    induction l as [|x l IH]; intros tail pos; [reflexivity|].
+    cbn [flat_map]. rewrite <- app_assoc. rewrite skips_stepq, IH. f_equal. rewrite app_length. lia.
+  Qed.
+
+  Lemma quote_safe : forall s, exists body,
+    quote s = 34%N :: body /\ lit_end body 1 = Some (List.length (quote s)).
+  Proof.
+    intros s. exists (flat_map stepq (runes_of s) ++ [34]). split; [reflexivity|].
+    rewrite skips_flat_map.
+    change (quote s) with (34 :: flat_map stepq (runes_of s) ++ [34]).
+    cbn [lit_end List.length]. cbn [N.eqb Pos.eqb]. f_equal. rewrite app_length. cbn [List.length]. lia.
+  Qed.
+End QuoteSafe.
+
+(* ------------------------------------------------------------------------------------------------ *)
+(* roundtrip                                                                                         *)
+(* ------------------------------------------------------------------------------------------------ *)
+
+Section Reader.
+  Local Open Scope nat_scope.
+
+  (* the local functions of [read_or (S f)], standalone *)
+  Definition r_atom (f : nat) (ts : list stok) : option (crit * list stok) :=
+    match ts with
+    | TLeaf k :: r => Some (CLeaf k, r)
+    | TLp :: r => match read_or f r with
+                  | Some (c, TRp :: r') => Some (c, r')
+                  | _ => None
+                  end
+    | _ => None
+    end.
+
+  Definition r_not (f : nat) := fix rn (n : nat) (ts : list stok) : option (crit * list stok) :=
+    match n with
+    | O => None
+    | S m => match ts with
+             | TNot :: r => match rn m r with Some (c, r') => Some (CNot c, r') | None => None end
+             | _ => r_atom f ts
+             end
+    end.
+
+  Definition r_and (f : nat) := fix ra (n : nat) (acc : crit) (ts : list stok) : option (crit * list stok) :=
+    match n with
+    | O => None
+    | S m => match ts with
+             | TAnd :: r => match r_not f (S (List.length r)) r with
+                            | Some (c, r') => ra m (CAnd acc c) r'
+                            | None => None end
+             | _ => Some (acc, ts)
+             end
+    end.
+
+  Definition and_expr (f : nat) (ts : list stok) : option (crit * list stok) :=
+    match r_not f (S (List.length ts)) ts with
+    | Some (c, r) => r_and f (S (List.length r)) c r
+    | None => None
+    end.
+
+  Definition r_or (f : nat) := fix ro (n : nat) (acc : crit) (ts : list stok) : option (crit * list stok) :=
+    match n with
+    | O => None
+    | S m => match ts with
+             | TOr :: r => match and_expr f r with
+                           | Some (c, r') => ro m (COr acc c) r'
+                           | None => None end
+             | _ => Some (acc, ts)
+             end
+    end.
+
+  Lemma read_or_S f ts :
+    read_or (S f) ts = match and_expr f ts with Some (c, r) => r_or f (S (List.length r)) c r | None => None end.
+  Proof. reflexivity. Qed.
+
+  Lemma r_not_leaf f n k r : r_not f (S n) (TLeaf k :: r) = Some (CLeaf k, r).
+  Proof. reflexivity. Qed.
+  Lemma r_not_lp f n r :
+    r_not f (S n) (TLp :: r) = match read_or f r with Some (c, TRp :: r') => Some (c, r') | _ => None end.
+  Proof. reflexivity. Qed.
+  Lemma r_not_not f n r :
+    r_not f (S n) (TNot :: r) = match r_not f n r with Some (c, r') => Some (CNot c, r') | None => None end.
+  Proof. reflexivity. Qed.
+  Lemma r_and_cons f n acc r :
+    r_and f (S n) acc (TAnd :: r) =
+    match r_not f (S (List.length r)) r with Some (c, r') => r_and f n (CAnd acc c) r' | None => None end.
+  Proof. reflexivity. Qed.
+  Lemma r_or_cons f n acc r :
+    r_or f (S n) acc (TOr :: r) =
+    match and_expr f r with Some (c, r') => r_or f n (COr acc c) r' | None => None end.
+  Proof. reflexivity. Qed.
+
+  Definition stopA (rest : list stok) : Prop := match rest with TAnd :: _ => False | _ => True end.
+  Definition stopO (rest : list stok) : Prop := match rest with TAnd :: _ | TOr :: _ => False | _ => True end.
+
+  Lemma stopO_A rest : stopO rest -> stopA rest.
+  Proof. destruct rest as [|[] ?]; cbn; trivial. Qed.
+
+  Lemma r_and_stop f n acc rest : stopA rest -> 0 < n -> r_and f n acc rest = Some (acc, rest).
+  Proof. intros H Hn. destruct n; [lia|]. destruct rest as [|[] ?]; cbn in H |- *; trivial; contradiction. Qed.
+
+  Lemma r_or_stop f n acc rest : stopO rest -> 0 < n -> r_or f n acc rest = Some (acc, rest).
+  Proof. intros H Hn. destruct n; [lia|]. destruct rest as [|[] ?]; cbn in H |- *; trivial; contradiction. Qed.
+
+  (* what each level of the reader does on a printed token list [ts] standing for [c], followed by anything *)
+  Definition LN (ts : list stok) (c : crit) : Prop :=
+    forall f n rest, List.length (ts ++ rest) <= f -> List.length (ts ++ rest) < n ->
+    exists c', r_not f n (ts ++ rest) = Some (c', rest) /\ flat c' = flat c.
+  Definition LA0 (ts : list stok) (c : crit) : Prop :=
+    forall f rest, List.length (ts ++ rest) <= f ->
+    exists c' n', and_expr f (ts ++ rest) = r_and f n' c' rest /\ List.length rest < n' /\ flat c' = flat c.
+  Definition LA1 (ts : list stok) (c : crit) : Prop :=
+    forall f n acc rest, List.length (TAnd :: ts ++ rest) <= f -> List.length (TAnd :: ts ++ rest) < n ->
+    exists acc' n', r_and f n acc (TAnd :: ts ++ rest) = r_and f n' acc' rest /\ List.length rest < n' /\
+                    flat acc' = flat (CAnd acc c).
+  Definition LO0 (ts : list stok) (c : crit) : Prop :=
+    forall f rest, List.length (ts ++ rest) <= f -> stopA rest ->
+    exists c' n', read_or (S f) (ts ++ rest) = r_or f n' c' rest /\ List.length rest < n' /\ flat c' = flat c.
+  Definition LO1 (ts : list stok) (c : crit) : Prop :=
+    forall f n acc rest, List.length (TOr :: ts ++ rest) <= f -> List.length (TOr :: ts ++ rest) < n -> stopA rest ->
+    exists acc' n', r_or f n acc (TOr :: ts ++ rest) = r_or f n' acc' rest /\ List.length rest < n' /\
+                    flat acc' = flat (COr acc c).
+  Definition LFull (ts : list stok) (c : crit) : Prop :=
+    forall f rest, List.length (ts ++ rest) <= f -> stopO rest ->
+    exists c', read_or (S f) (ts ++ rest) = Some (c', rest) /\ flat c' = flat c.
+
+  Lemma flat_and_cong a a' b b' : flat a' = flat a -> flat b' = flat b -> flat (CAnd a' b') = flat (CAnd a b).
+  Proof. intros H1 H2. cbn [flat]. rewrite H1, H2. reflexivity. Qed.
+  Lemma flat_or_cong a a' b b' : flat a' = flat a -> flat b' = flat b -> flat (COr a' b') = flat (COr a b).
+  Proof. intros H1 H2. cbn [flat]. rewrite H1, H2. reflexivity. Qed.
+  Lemma flat_and_assoc a b c : flat (CAnd (CAnd a b) c) = flat (CAnd a (CAnd b c)).
+  Proof. cbn [flat]. rewrite app_assoc. reflexivity. Qed.
+  Lemma flat_or_assoc a b c : flat (COr (COr a b) c) = flat (COr a (COr b c)).
+  Proof. cbn [flat]. rewrite app_assoc. reflexivity. Qed.
+
+  Lemma LN_leaf k : LN [TLeaf k] (CLeaf k).
+  Proof.
+    intros f n rest _ Hn. destruct n; [lia|]. cbn [app]. rewrite r_not_leaf. exists (CLeaf k). split; reflexivity.
+  Qed.
+
+  Lemma LN_not ta a : LN ta a -> LN (TNot :: ta) (CNot a).
+  Proof.
+    intros H f n rest Hf Hn. cbn [app List.length] in Hf, Hn |- *. destruct n; [lia|].
+    rewrite r_not_not.
+    destruct (H f n rest) as (c' & E & Hc); [lia|lia|].
+    rewrite E. exists (CNot c'). split; [reflexivity|]. cbn [flat]. rewrite Hc. reflexivity.
+  Qed.
+
+  Lemma LN_wrap ts c : LFull ts c -> LN (TLp :: ts ++ [TRp]) c.
+  Proof.
+    intros H f n rest Hf Hn.
+    change ((TLp :: ts ++ [TRp]) ++ rest) with (TLp :: ((ts ++ [TRp]) ++ rest)) in *.
+    rewrite <- app_assoc in *. cbn [app] in *. cbn [List.length] in Hf, Hn.
+    destruct n; [lia|]. rewrite r_not_lp.
+    destruct f as [|f]; [lia|].
+    destruct (H f (TRp :: rest)) as (c' & E & Hc); [lia|exact I|].
+    rewrite E. exists c'. split; [reflexivity|exact Hc].
+  Qed.
+
+  Lemma LA0_of_N ts c : LN ts c -> LA0 ts c.
+  Proof.
+    intros H f rest Hf. unfold and_expr.
+    destruct (H f (S (List.length (ts ++ rest))) rest) as (c' & E & Hc); [lia|lia|].
+    rewrite E. exists c', (S (List.length rest)). split; [reflexivity|]. split; [lia|exact Hc].
+  Qed.
+
+  Lemma LA1_of_N ts c : LN ts c -> LA1 ts c.
+  Proof.
+    intros H f n acc rest Hf Hn. cbn [List.length] in Hf, Hn. destruct n; [lia|].
+    rewrite r_and_cons.
+    destruct (H f (S (List.length (ts ++ rest))) rest) as (c' & E & Hc); [lia|lia|].
+    rewrite E. exists (CAnd acc c'), n. split; [reflexivity|]. split.
+    - rewrite app_length in Hn. lia.
+    - apply flat_and_cong; [reflexivity|exact Hc].
+  Qed.
+
+  Lemma LA0_and ta a tb b : LA0 ta a -> LA1 tb b -> LA0 (ta ++ TAnd :: tb) (CAnd a b).
+  Proof.
+    intros Ha Hb f rest Hf. rewrite <- app_assoc in *. cbn [app] in *.
+    destruct (Ha f (TAnd :: tb ++ rest)) as (a' & n1 & E1 & Hn1 & Hc1); [lia|].
+    rewrite E1.
+    destruct (Hb f n1 a' rest) as (acc' & n2 & E2 & Hn2 & Hc2); [rewrite app_length in Hf; lia|lia|].
+    rewrite E2. exists acc', n2. split; [reflexivity|]. split; [exact Hn2|].
+    rewrite Hc2. apply flat_and_cong; [exact Hc1|reflexivity].
+  Qed.
+
+  Lemma LA1_and ta a tb b : LA1 ta a -> LA1 tb b -> LA1 (ta ++ TAnd :: tb) (CAnd a b).
+  Proof.
+    intros Ha Hb f n acc rest Hf Hn. rewrite <- app_assoc in *. cbn [app] in *.
+    destruct (Ha f n acc (TAnd :: tb ++ rest)) as (acc1 & n1 & E1 & Hn1 & Hc1); [lia|lia|].
+    rewrite E1.
+    destruct (Hb f n1 acc1 rest) as (acc2 & n2 & E2 & Hn2 & Hc2);
+      [cbn [List.length] in Hf; rewrite app_length in Hf; lia|lia|].
+    rewrite E2. exists acc2, n2. split; [reflexivity|]. split; [exact Hn2|].
+    rewrite Hc2, <- flat_and_assoc. apply flat_and_cong; [exact Hc1|reflexivity].
+  Qed.
+
+  Lemma LO0_of_A ts c : LA0 ts c -> LO0 ts c.
+  Proof.
+    intros H f rest Hf Hs. rewrite read_or_S.
+    destruct (H f rest Hf) as (c' & n' & E & Hn & Hc).
+    rewrite E, r_and_stop by (assumption || lia).
+    exists c', (S (List.length rest)). split; [reflexivity|]. split; [lia|exact Hc].
+  Qed.
+
+  Lemma LO1_of_A ts c : LA0 ts c -> LO1 ts c.
+  Proof.
+    intros H f n acc rest Hf Hn Hs. cbn [List.length] in Hf, Hn. destruct n; [lia|].
+    rewrite r_or_cons.
+    destruct (H f rest) as (c' & n' & E & Hn' & Hc); [lia|].
+    rewrite E, r_and_stop by (assumption || lia).
+    exists (COr acc c'), n. split; [reflexivity|]. split.
+    - rewrite app_length in Hn. lia.
+    - apply flat_or_cong; [reflexivity|exact Hc].
+  Qed.
+
+  Lemma LO0_or ta a tb b : LO0 ta a -> LO1 tb b -> LO0 (ta ++ TOr :: tb) (COr a b).
+  Proof.
+    intros Ha Hb f rest Hf Hs. rewrite <- app_assoc in *. cbn [app] in *.
+    destruct (Ha f (TOr :: tb ++ rest)) as (a' & n1 & E1 & Hn1 & Hc1); [lia|exact I|].
+    rewrite E1.
+    destruct (Hb f n1 a' rest) as (acc' & n2 & E2 & Hn2 & Hc2); [rewrite app_length in Hf; lia|lia|exact Hs|].
+    rewrite E2. exists acc', n2. split; [reflexivity|]. split; [exact Hn2|].
+    rewrite Hc2. apply flat_or_cong; [exact Hc1|reflexivity].
+  Qed.
+
+  Lemma LO1_or ta a tb b : LO1 ta a -> LO1 tb b -> LO1 (ta ++ TOr :: tb) (COr a b).
+  Proof.
+    intros Ha Hb f n acc rest Hf Hn Hs. rewrite <- app_assoc in *. cbn [app] in *.
+    destruct (Ha f n acc (TOr :: tb ++ rest)) as (acc1 & n1 & E1 & Hn1 & Hc1); [lia|lia|exact I|].
+    rewrite E1.
+    destruct (Hb f n1 acc1 rest) as (acc2 & n2 & E2 & Hn2 & Hc2);
+      [cbn [List.length] in Hf; rewrite app_length in Hf; lia|lia|exact Hs|].
+    rewrite E2. exists acc2, n2. split; [reflexivity|]. split; [exact Hn2|].
+    rewrite Hc2, <- flat_or_assoc. apply flat_or_cong; [exact Hc1|reflexivity].
+  Qed.
+
+  Lemma LFull_of_O ts c : LO0 ts c -> LFull ts c.
+  Proof.
+    intros H f rest Hf Hs.
+    destruct (H f rest Hf (stopO_A _ Hs)) as (c' & n' & E & Hn & Hc).
+    rewrite E, r_or_stop by (assumption || lia).
+    exists c'. split; [reflexivity|exact Hc].
+  Qed.
+
+  (* the three kinds of printed token lists *)
+  Definition GO ts c := LO0 ts c /\ LO1 ts c /\ LFull ts c.
+  Definition GA ts c := LA0 ts c /\ LA1 ts c /\ GO ts c.
+  Definition GN ts c := LN ts c /\ GA ts c.
+
+  Lemma GO_of_A0 ts c : LA0 ts c -> GO ts c.
+  Proof. intros H. split; [|split]; [apply LO0_of_A|apply LO1_of_A|apply LFull_of_O, LO0_of_A]; exact H. Qed.
+
+  Lemma GN_of_N ts c : LN ts c -> GN ts c.
+  Proof.
+    intros H. split; [exact H|]. split; [apply LA0_of_N, H|]. split; [apply LA1_of_N, H|].
+    apply GO_of_A0, LA0_of_N, H.
+  Qed.
+
+  Lemma GN_wrap ts c : GO ts c -> GN ([TLp] ++ ts ++ [TRp]) c.
+  Proof. intros (_ & _ & H). apply GN_of_N. apply (LN_wrap _ _ H). Qed.
+
+  Lemma GA_and ta a tb b : GA ta a -> GA tb b -> GA (ta ++ [TAnd] ++ tb) (CAnd a b).
+  Proof.
+    intros (Ha0 & Ha1 & _) (_ & Hb1 & _). cbn [app].
+    split; [apply LA0_and; assumption|]. split; [apply LA1_and; assumption|].
+    apply GO_of_A0, LA0_and; assumption.
+  Qed.
+
+  Lemma GO_or ta a tb b : GO ta a -> GO tb b -> GO (ta ++ [TOr] ++ tb) (COr a b).
+  Proof.
+    intros (Ha0 & Ha1 & _) (_ & Hb1 & _). cbn [app].
+    split; [apply LO0_or; assumption|]. split; [apply LO1_or; assumption|].
+    apply LFull_of_O, LO0_or; assumption.
+  Qed.
+
+  Lemma GN_GA ts c : GN ts c -> GA ts c.
+  Proof. intros (_ & H). exact H. Qed.
+  Lemma GA_GO ts c : GA ts c -> GO ts c.
+  Proof. intros (_ & _ & H). exact H. Qed.
+
+  Lemma toks_levels c : forall outer,
+    GO (sql_toks c outer) c /\
+    (N.ltb P_OR outer = true -> GA (sql_toks c outer) c) /\
+    (N.ltb P_AND outer = true -> GN (sql_toks c outer) c).
+  Proof.
+    induction c as [k|a IHa b IHb|a IHa b IHb|a IHa]; intros outer; cbn [sql_toks].
+    - pose proof (GN_of_N _ _ (LN_leaf k)) as H.
+      split; [apply GA_GO, GN_GA, H|]. split; intros _; [apply GN_GA, H|exact H].
+    - assert (Hb : GA (sql_toks a P_AND ++ [TAnd] ++ sql_toks b P_AND) (CAnd a b)).
+      { apply GA_and; [apply (proj1 (proj2 (IHa P_AND)))|apply (proj1 (proj2 (IHb P_AND)))]; reflexivity. }
+      destruct (N.ltb P_AND outer) eqn:E.
+      + pose proof (GN_wrap _ _ (GA_GO _ _ Hb)) as H.
+        split; [apply GA_GO, GN_GA, H|]. split; intros _; [apply GN_GA, H|exact H].
+      + split; [apply GA_GO, Hb|]. split; [intros _; exact Hb|discriminate].
+    - assert (Hb : GO (sql_toks a P_OR ++ [TOr] ++ sql_toks b P_OR) (COr a b)).
+      { apply GO_or; [apply (proj1 (IHa P_OR))|apply (proj1 (IHb P_OR))]. }
+      destruct (N.ltb P_OR outer) eqn:E.
+      + pose proof (GN_wrap _ _ Hb) as H.
+        split; [apply GA_GO, GN_GA, H|]. split; intros _; [apply GN_GA, H|exact H].
+      + split; [exact Hb|]. split; [discriminate|].
+        intros E'. exfalso. apply N.ltb_lt in E'. apply N.ltb_ge in E. unfold P_OR, P_AND in *. lia.
+    - assert (Hb : GN ([TNot] ++ sql_toks a P_NOT) (CNot a)).
+      { apply GN_of_N. cbn [app]. apply LN_not. apply (proj2 (proj2 (IHa P_NOT))). reflexivity. }
+      destruct (N.ltb P_NOT outer) eqn:E.
+      + pose proof (GN_wrap _ _ (GA_GO _ _ (GN_GA _ _ Hb))) as H.
+        split; [apply GA_GO, GN_GA, H|]. split; intros _; [apply GN_GA, H|exact H].
+      + split; [apply GA_GO, GN_GA, Hb|]. split; intros _; [apply GN_GA, Hb|exact Hb].
+  Qed.
+
+  Lemma roundtrip : forall c outer,
+    exists c', read (sql_toks c outer) = Some c' /\ flat c' = flat c.
+  Proof.
+    intros c outer. destruct (toks_levels c outer) as ((_ & _ & H) & _).
+    destruct (H (List.length (sql_toks c outer)) []) as (c' & E & Hc); [rewrite app_nil_r; lia|exact I|].
+    rewrite app_nil_r in E. exists c'. split; [|exact Hc]. unfold read. rewrite E. reflexivity.
+  Qed.
+End Reader.
+
+Print Assumptions text_is_tokens.
+Print Assumptions roundtrip.
+Print Assumptions quote_safe.
+Print Assumptions string_operand.
+Print Assumptions scalars.
+Print Assumptions names.
